@@ -395,13 +395,14 @@ fn __verif::zc_recv_full_sync(_1: &FullSyncZeroCopy) -> Option<u32> {
 
 # ---------------------------------------------------------------------------------------------------------
 # FIFO-like objects: the two raw rings and the two zero-copy wrappers
-def fifo_object(ctx, kind, N, k):
+def fifo_object(ctx, kind, N, k, needs_drop=False):
     """returns (world, self_ptr, ops) with the object pre-filled with k symbolic events (k concrete, 0..N)"""
     consts = {"BUFFER_SIZE": N, "POOL_SIZE": N}
     types = {"SlotType": "u32", "DataType": "u32"}
     if kind in ("AtomicZeroCopy",): types.update({"OgreAllocatorType": "OgreArrayPoolAllocator", "ContainerType": "AtomicMove"})
     if kind in ("FullSyncZeroCopy",): types.update({"OgreAllocatorType": "OgreArrayPoolAllocator", "ContainerType": "FullSyncMove"})
     w = World(ctx.index, ctx.type_files, consts, types)
+    if needs_drop: w.cfg_extra = {"needs_drop": True}      # the pooled payload type has a destructor (mem::needs_drop::<DataType>() is true)
     origin = w.sym("origin")
     pre = [w.sym("pre%d" % i) for i in range(k)]
     q = Ptr("q")
@@ -429,7 +430,7 @@ def fifo_object(ctx, kind, N, k):
 
 def fifo_query(ctx, name, kind, N, k, threads, oracle, slack, timeout_s, drain=True, opts=None):
     """threads: list of op-name lists, e.g. [['send'], ['send'], ['recv','recv']]"""
-    w, q, ops, pre = fifo_object(ctx, kind, N, k)
+    w, q, ops, pre = fifo_object(ctx, kind, N, k, needs_drop=bool((opts or {}).get("needs_drop")))
     it = w.interp()
     graphs = []; payloads = []; plan = []
     for t, prog in enumerate(threads):
@@ -536,7 +537,8 @@ def fifo_query(ctx, name, kind, N, k, threads, oracle, slack, timeout_s, drain=T
         origins = [inp["origin"], inp.get("origin2", inp["origin"])]
         if kind in ("AtomicZeroCopy", "FullSyncZeroCopy"): origins = [inp.get("origin2", 0), inp["origin"]]     # creation order: allocator's free list first, then the queue
         segs = replay.segments_from_trace(rec["trace"], skip_threads=(len(threads),) if drain else ())
-        found, why, tried = replay.search(kind, N, origins, prefill_vals, progs, ["drain"] * N if drain else [], segs,
+        rkind = kind + ("Drop" if (opts or {}).get("needs_drop") and kind.endswith("ZeroCopy") else "")
+        found, why, tried = replay.search(rkind, N, origins, prefill_vals, progs, ["drain"] * N if drain else [], segs,
                                           replay.fifo_symptom(oracle, N, prefill_vals))
         rec["native_runs"] = tried
         if found:
@@ -1650,6 +1652,11 @@ def _c04_registry(add, tier, TO):
 
 
 def _c05_registry(add, tier, TO):
+    def fq(name, qtier, kind, N, k, threads):
+        add("C05", name, qtier, lambda ctx: fifo_query(ctx, name, kind, N, k, threads, "exactly_once", 6, TO, opts={"needs_drop": True}))
+    # payload WITH a destructor, pool exhausted: a consumer releases a payload while a producer is waiting for a slot
+    fq("c05_zc_atomic_destructor_vs_reuse_n2", "quick", "AtomicZeroCopy", 2, 2, [["send"], ["recv"]])
+    fq("c05_zc_fullsync_destructor_vs_reuse_n2", "thorough", "FullSyncZeroCopy", 2, 2, [["send"], ["recv"]])
     def q(name, qtier, container, N, threads, slack=3):
         add("C05", name, qtier, lambda ctx: arc_query(ctx, name, container, N, threads, slack, TO))
     q("c05_arc_last_two_drops", "quick", "AtomicMove", 2, [["read", "drop"], ["drop"]])
